@@ -1,1 +1,136 @@
-From C19 Require Import Model.
+(* C19/Properties.v — property C19: justification verification accepts exactly valid justifications.
+   Statements only, each closed by `exact <lemma>`, with Print Assumptions beneath.
+
+   Vocabulary (C19/Model.v): [new_voter_set] = NewVoterSet, [validate_commit] = ValidateCommit,
+   [verify_finalizes] = DecodeGrandpaJustificationVerifyFinalizes after decoding (target check +
+   verifyWithVoterSet), as repaired by fixes/C19-voterset-duplicate-weights.patch and
+   fixes/C19-commit-base-sort.patch; the Round / vote graph is replaced by its specification
+   [precommit_ghost].  [members vs ps] = the precommits of set members; [spec_weight vs hs ms b] =
+   the summed weight of the DISTINCT voters with a precommit on b or a descendant of b (per the
+   supplied headers), an equivocator (two different (vote, signature) pairs) counted once on every
+   block.
+
+   FULL STATEMENT (the property text), checked on every run by the correspondence harness (the
+   driver evaluates [justification_valid_spec] / [commit_valid_spec] / [voter_set_spec] on the
+   implementation's observables at both widths and in several precommit orders):
+     verify_finalizes vs hs f fn t tn ps = JOk <-> justification_valid_spec vs hs f fn t tn ps = true
+     for every precommit order and both widths.
+   PROVED below: the voter-set part in full (C19_voter_set_spec, C19_voter_set_order_free,
+   C19_threshold_supermajority); for justifications the "only if" half that finality rests on
+   (C19_valid_commit_sound, C19_accept_sound: accepted => target matches, every signature valid,
+   supermajority weight of distinct members on the target or its descendants, every precommit on
+   the chain of the lowest one).  NOT proved in Coq (validated by correspondence only): the "if"
+   half, exactness of the GHOST = target and unused-header conditions, and order independence of
+   the verdict, which is FALSE of the code when equivocators outweigh total - threshold
+   (C19_order_excess_refuted; recorded finding commit-order-dependent-under-excess-equivocation). *)
+From Coq Require Import List NArith ZArith Bool Permutation.
+From C19 Require Import Model ProofsVoterSet ProofsCommit.
+Import ListNotations.
+Local Open Scope N_scope.
+
+(* threshold(total) is exactly "more than two thirds" *)
+Theorem C19_threshold_supermajority : forall total w,
+  1 <= total -> (threshold total <= w <-> 2 * total < 3 * w).
+Proof. exact threshold_supermajority. Qed.
+Print Assumptions C19_threshold_supermajority.
+
+(* NewVoterSet on every weight list: a voter listed several times has its weights summed, zero
+   weights and an overflowing total are handled as specified, ids ascend, the threshold is the
+   least supermajority weight *)
+Theorem C19_voter_set_spec : forall ws, voter_set_spec ws (new_voter_set ws) = true.
+Proof. exact new_voter_set_spec. Qed.
+Print Assumptions C19_voter_set_spec.
+
+Theorem C19_dup_weights_sum : forall ws vs,
+  new_voter_set ws = Some vs ->
+  vs_total vs = sum_all ws /\ 1 <= vs_total vs < two64
+  /\ 2 * vs_total vs < 3 * vs_threshold vs /\ 3 * (vs_threshold vs - 1) <= 2 * vs_total vs
+  /\ (forall id, vs_weight vs id = sum_for id ws)
+  /\ (forall id, vs_contains vs id = negb (sum_for id ws =? 0)).
+Proof. exact new_voter_set_some. Qed.
+Print Assumptions C19_dup_weights_sum.
+
+Theorem C19_voter_set_order_free : forall ws ws',
+  Permutation ws ws' -> new_voter_set ws = new_voter_set ws'.
+Proof. exact new_voter_set_perm. Qed.
+Print Assumptions C19_voter_set_order_free.
+
+(* the pinned tree overwrote the weight of a repeated id: [(a,1),(a,2),(b,1)] gave a weight 2
+   with total 4, and the result depended on the order of the list *)
+Theorem C19_voter_set_prefix_refuted : exists ws ws',
+  voter_set_spec ws (new_voter_set_prefix ws) = false
+  /\ Permutation ws ws' /\ new_voter_set_prefix ws <> new_voter_set_prefix ws'.
+Proof.
+  exists [(0, 1); (0, 2); (1, 1)], [(0, 2); (0, 1); (1, 1)].
+  destruct new_voter_set_prefix_witness as [H1 [H2 [_ H4]]].
+  split; [exact H1|]. split; [apply perm_swap|]. rewrite H2, H4. discriminate.
+Qed.
+Print Assumptions C19_voter_set_prefix_refuted.
+
+(* ValidateCommit: a commit declared valid has threshold weight of distinct set members on the
+   target or its descendants, and every member precommit is on the chain of the lowest one *)
+Theorem C19_valid_commit_sound : forall vs hs thash tnum ps r,
+  validate_commit vs hs thash tnum ps = VOk r -> r_valid r = true ->
+  vs_threshold vs <= spec_weight vs hs (members vs ps) thash
+  /\ exists p0 rest, members vs ps = p0 :: rest
+       /\ forallb (fun p => is_eq_or_desc hs (p_hash (first_min p0 rest)) (p_hash p)) (members vs ps) = true.
+Proof. exact validate_commit_sound. Qed.
+Print Assumptions C19_valid_commit_sound.
+
+(* an accepted justification, for a voter set made by NewVoterSet from any weight list: the
+   finalized target is the commit target, every listed signature is valid, MORE THAN TWO THIRDS of
+   the total weight (repeated ids summed) stands on the target or its descendants, and every
+   precommit is connected by the supplied headers to the lowest one *)
+Theorem C19_accept_sound : forall ws vs hs fhash fnum thash tnum ps,
+  new_voter_set ws = Some vs ->
+  verify_finalizes vs hs fhash fnum thash tnum ps = JOk ->
+  fhash = thash /\ fnum = tnum
+  /\ (forall p, In p ps -> p_ok p = true)
+  /\ 2 * sum_all ws < 3 * spec_weight vs hs (members vs ps) thash
+  /\ exists p0 rest, ps = p0 :: rest
+       /\ forall p, In p ps -> is_eq_or_desc hs (p_hash (last_min p0 rest)) (p_hash p) = true.
+Proof.
+  intros ws vs hs fhash fnum thash tnum ps E H.
+  destruct (verify_finalizes_sound _ _ _ _ _ _ _ H) as [H1 [H2 [[r [H3 H4]] [H5 H6]]]].
+  destruct (validate_commit_sound _ _ _ _ _ _ H3 H4) as [W _].
+  destruct (new_voter_set_some _ _ E) as [T [_ [B _]]].
+  repeat split; auto. rewrite <- T.
+  apply N.lt_le_trans with (3 * vs_threshold vs); [exact B|].
+  apply N.mul_le_mono_l. exact W.
+Qed.
+Print Assumptions C19_accept_sound.
+
+(* the pinned tree: the comparator `int(a.Number - b.Number)` is never negative for uint32, so
+   the base was the first listed target, not the lowest: the same commit was valid at uint64 and
+   invalid at uint32, and at uint32 valid in another precommit order *)
+Theorem C19_width_prefix_refuted : exists vs hs thash tnum ps,
+  validate_commit_prefix 32 vs hs thash tnum ps <> validate_commit_prefix 64 vs hs thash tnum ps
+  /\ validate_commit_prefix 32 vs hs thash tnum ps <> validate_commit_prefix 32 vs hs thash tnum (rev ps)
+  /\ validate_commit vs hs thash tnum ps = validate_commit vs hs thash tnum (rev ps)
+  /\ commit_valid_spec vs hs thash tnum ps = true.
+Proof.
+  exists w_vs, w_hs, 1, 6, w_pcs. destruct width_witness as [H1 [H2 [H3 [H4 [H5 H6]]]]].
+  rewrite H1, H2, H3, H4, H5. repeat split; try discriminate; auto.
+Qed.
+Print Assumptions C19_width_prefix_refuted.
+
+(* the recorded finding: with equivocating weight above total - threshold the verdict of the
+   (repaired) code depends on which of an equivocator's votes is listed first *)
+Theorem C19_order_excess_refuted : exists vs hs thash tnum ps ps',
+  Permutation ps ps' /\ excess_equivocation vs ps = true
+  /\ validate_commit vs hs thash tnum ps <> validate_commit vs hs thash tnum ps'.
+Proof.
+  exists w_vs1, [mkHdr 1 0 6], 0, 5, [mkPc 0 5 0 0 true; mkPc 1 6 0 0 true],
+         [mkPc 1 6 0 0 true; mkPc 0 5 0 0 true].
+  destruct order_witness as [H1 [H2 H3]].
+  split; [apply perm_swap|]. split; [exact H3|]. rewrite H1, H2. discriminate.
+Qed.
+Print Assumptions C19_order_excess_refuted.
+
+(* non-vacuity: an accepted justification (three voters, precommits on the target and its child,
+   the child's header) and the same one rejected for an unused header *)
+Example C19_nonvacuous :
+  verify_finalizes w_vs [mkHdr 2 1 7] 1 6 1 6 w_pcs = JOk
+  /\ justification_valid_spec w_vs [mkHdr 2 1 7] 1 6 1 6 w_pcs = true
+  /\ verify_finalizes w_vs w_hs 1 6 1 6 w_pcs = JErr JUnused.
+Proof. destruct good_witness as [H1 [H2 [H3 _]]]. auto. Qed.
